@@ -47,7 +47,7 @@ pub fn prop() -> Prop {
 fn describe(ctx: &Ctx) {
     ctx.rule("one sheet built through the public API (valued/styled cells at small, boundary and near-limit positions, row/column settings) x histories of 1..60 operations {get_cell_mut, set_cell, set value, remove_cell, set_style, set_style_by_range (cell, row and column ranges), insert/remove rows/columns, move_range, copy_range, cleanup, copy_row_styling, copy_col_styling, save}; after every operation all lookups/listings are compared with a brute-force scan of get_collection_to_hashmap(), saves are read back with the library's reader. Non-trivial = the history has a structural shift (insert/remove rows/columns, move, copy) followed later by a remove_cell, cleanup, set_cell or save; distinct by serialised case");
     ctx.assume("arguments are resolved against the sheet's current content so that they are in range: inserts never push content past the grid, move/copy destinations stay inside it, bulk styling calls are bounded to 64 rows/columns");
-    ctx.assume("set_style_by_range is never called with a single-row or single-column range (\"3:3\", \"B:B\"): that call indexes past its own coordinate list, which is not a cell-store matter");
+    ctx.assume("set_style_by_range with a row range (\"3:5\") or a column range (\"B:D\") is generated, but on this tree it always panics in helper/range.rs (\"Non-standard range.\") before the sheet is touched; that is not a cell-store matter: the op is labelled and the history continues on the unchanged state");
     ctx.assume("'non-empty cell' on save = a cell of E whose get_value() is not the empty string");
 }
 
@@ -90,7 +90,7 @@ fn subs() -> Vec<Box<dyn DynSub>> {
     vec![Box::new(Sub {
         name: "history",
         strategy,
-        cases: (300, 15000),
+        cases: (800, 20000),
         check,
         max_shrink_iters: 6000,
     })]
@@ -313,6 +313,10 @@ pub fn save_check(book: &Spreadsheet) -> Option<(String, String)> {
         Err(e) => return fail("save", "own-reader-rejects-file", format!("{:?}", e)),
     };
     let ws2 = back.get_sheet(&0).unwrap();
+    // the reloaded sheet is a cell store as well (filled by the reader's own insert path)
+    if let Some((k, d)) = coherence(ws2, (3, 3)) {
+        return Some((format!("reloaded/{}", k), format!("after save + reload: {}", d)));
+    }
     for (&(r, c), v) in &valued {
         match ws2.get_cell((c, r)) {
             None => return fail("save", "cell-not-emitted", format!("cell {} = {:?} is missing from the saved sheet", show((r, c)), v)),
@@ -387,6 +391,13 @@ fn check(case: &Case, obs: &mut Obs) -> Verdict {
                 );
             }
             obs.class(format!("op-panicked:{}:{}", kind, p.site()));
+            if p.site().ends_with("helper/range.rs") {
+                // the range string was rejected while it was being parsed, before the
+                // sheet was touched (set_style_by_range with a row or column range):
+                // the state is unchanged, the history goes on
+                trace.pop();
+                continue;
+            }
             return Verdict::Pass;
         }
         obs.class(format!("op:{}", kind));
